@@ -17,7 +17,7 @@ import re
 from ..astutil import dotted, src, walk_local, local_assignments, dominating_guards, preceding_exit_guards, enclosing_function, FUNC_NODES
 from ..dispatch import dispatcher, exact_arm
 from ..logic import formula, And, Not, atom, TRUE, counterexample, implies
-from ..report import AnalysisError
+from ..report import AnalysisError, Frag
 
 OWN_CLASSES = {"Constant", "Parameter", "VectorParameter", "MatrixParameter"}
 SKIP_MODULES = {"optyx.solution", "optyx.core.errors", "optyx.core.verification"}
@@ -117,7 +117,7 @@ def check(prog, rep):
         for n in walk_local(fi.node):
             if isinstance(n, ast.Call) and dotted(n.func) == "isinstance" and len(n.args) == 2 and isinstance(n.args[1], ast.Tuple):
                 ks = {src(e) for e in n.args[1].elts}
-                if "Parameter" in ks and "Constant" in ks:
+                if Frag(ks, "Parameter", "Constant"):
                     # acceptable only where no value is folded (e.g. "contributes no variables")
                     par = getattr(n, "_parent", None)
                     body = par.body if isinstance(par, ast.If) else []
@@ -139,8 +139,26 @@ def check(prog, rep):
     P = prog.cls("Problem")
     lin = P.methods.get("_is_linear_problem")
     lp = prog.func("optyx.solvers.lp_solver:solve_lp")
-    ok = lin is not None and "is_linear(" in src(lin.node) and "is_linear(" in src(lp.node)
-    rep.pin("routing", "R12.3", "routing", ok, "both the auto router and solve_lp gate on is_linear (degree-based)" if ok else "the LP path is not gated by the degree-based linearity test", loc=lp.loc, detail="lp-gated-by-degree")
+    from ..callgraph import CallGraph
+
+    cg = CallGraph(prog)
+    target = prog.func("optyx.analysis:is_linear")
+
+    def consults(fi, depth=0):
+        """fi calls is_linear itself, or through module-level / same-class helpers (two levels)."""
+        if fi is None:
+            return False
+        cs = cg.callees(fi)
+        if any(c is target for c in cs):
+            return True
+        return depth < 2 and any(consults(c, depth + 1) for c in cs if c.module is fi.module and c.parent is None)
+
+    ok = consults(lin) and consults(lp)
+    if ok:
+        rep.ob("R12.3", "routing", True, "both the auto router and solve_lp consult is_linear (degree-based; C04 decides what the verdict is made of, C06/C08 what solve_lp does with it)", loc=lp.loc, detail="lp-gated-by-degree")
+    else:
+        who = "Problem._is_linear_problem" if not consults(lin) else "solve_lp"
+        rep.ob("R12.3", "routing", False, f"the LP path is not gated by the degree-based linearity test: {who} does not reach analysis.is_linear", loc=lp.loc, detail="lp-gated-by-degree")
 
     # ------------------------------------------------------------------ R12.4
     from .c01 import evaluator_builders
